@@ -65,6 +65,8 @@ where T: std::str::FromStr + Clone, T::Err: std::fmt::Debug {
       "exact" => go!(ins, v, v.iter().map(|_| ())),
       "filter" => go!(ins, v, v.iter().filter(|_| std::hint::black_box(true)).map(|_| ())),
       "chain" => go!(ins, v, { let (a, b) = v.split_at(v.len() / 2); a.iter().chain(b.iter()).map(|_| ()) }),
+      "mixed" => go!(ins, v, { let (a, b) = v.split_at(v.len() / 2); a.iter().chain(b.iter().filter(|_| std::hint::black_box(true))).map(|_| ()) }),
+      "mixedrev" => go!(ins, v, { let (a, b) = v.split_at(v.len() / 3); a.iter().filter(|_| std::hint::black_box(true)).chain(b.iter()).map(|_| ()) }),
       "flat" => {
          let vvs: Vec<Vec<Vec<T>>> = ins.iter().map(|v| v.chunks(2).map(|c| c.to_vec()).collect()).collect();
          go!(vvs, vv, vv.iter().flat_map(|c| c.iter()).map(|_| ()))
